@@ -11,6 +11,13 @@ Strategies (drawn per run by the world):
 - ``unif`` : at each step switch with probability p to a uniformly drawn
   other runnable thread;
 - ``stagger``: thread i becomes runnable at step s_i, then ``unif``.
+- ``rdv``  : ``unif`` plus a rendezvous on shared state: at a step inside a
+  *hot* function (one that touches a hand-rolled memo or a lazily filled
+  attribute: ``seams.state.hot_codes``) the thread may be parked (a drawn
+  coin, a drawn budget of parks per thread) until another thread has run
+  through a hot function, and is resumed right there. A check-then-act
+  window one line wide is then met by construction rather than by luck;
+  which thread parks where, and who runs meanwhile, are draws like any other.
 
 Calls into C (cffi bindings, builtins, ``lru_cache``'s own locking) are
 atomic steps -- which is also what the GIL makes them.
@@ -38,7 +45,7 @@ class SimAbort(BaseException):
 class _T:
     __slots__ = (
         "name", "fn", "sem", "thread", "finished", "started", "result",
-        "prio", "blocked_on", "visited", "idx", "start_at", "steps",
+        "prio", "blocked_on", "visited", "idx", "start_at", "steps", "parks_left",
     )
 
     def __init__(self, idx: int, name: str, fn: Callable[[], Any]) -> None:
@@ -55,6 +62,7 @@ class _T:
         self.visited: dict[int, set[int]] = {}
         self.start_at = 0
         self.steps = 0
+        self.parks_left = 0
 
 
 class SimThreads:
@@ -68,6 +76,7 @@ class SimThreads:
         max_steps: int = 400000,
         wall_timeout: float = 60.0,
         root: str = BTCLIB_ROOT,
+        hot: frozenset[Any] = frozenset(),
     ) -> None:
         self.ctx = ctx
         self.strategy = strategy
@@ -88,6 +97,8 @@ class SimThreads:
         self._change_points: set[int] = set()
         self._fin_lock = threading.Lock()
         self.harness_exc: BaseException | None = None
+        self.hot = hot if strategy.get("kind") == "rdv" else frozenset()
+        self._parked: _T | None = None
 
     # -- building ---------------------------------------------------------------
     def spawn(self, name: str, fn: Callable[[], Any]) -> None:
@@ -117,8 +128,16 @@ class SimThreads:
                     return self._local_trace
                 seen.add(mark)
             self._step(t, frame)
-        elif event == "return" and self.dedupe == "frame":
-            t.visited.pop(id(frame), None)
+        elif event == "return":
+            if self.dedupe == "frame":
+                t.visited.pop(id(frame), None)
+            if self._parked is not None and self._parked is not t and frame.f_code in self.hot:
+                # this thread has been through a hot function while another is parked inside one: the parked
+                # thread goes on from where it stood
+                nxt = self._parked
+                self._parked = None
+                self.ctx.probe("rendezvous-met")
+                self._switch(t, nxt, f"{os.path.basename(frame.f_code.co_filename)}:{frame.f_lineno}.ret")
         return self._local_trace
 
     def new_op(self) -> None:
@@ -148,7 +167,7 @@ class SimThreads:
             self._abort_all()
             raise SimAbort("step cap")
         try:
-            nxt = self._decide(t)
+            nxt = self._decide(t, bool(self.hot) and frame.f_code in self.hot)
         except SimAbort:
             raise
         except BaseException as e:  # noqa: BLE001
@@ -164,8 +183,21 @@ class SimThreads:
         self._abort_all()
         raise SimAbort("harness failure")
 
-    def _decide(self, t: _T) -> _T:
+    def _decide(self, t: _T, hot: bool = False) -> _T:
         kind = self.strategy["kind"]
+        if kind == "rdv":
+            others = [x for x in self._runnable(exclude=t) if x is not self._parked]
+            if not others:
+                return t
+            if hot and self._parked is None and t.parks_left > 0 and self.ctx.ch.chance(1, 3, "thr.park?"):
+                t.parks_left -= 1
+                self._parked = t
+                self.ctx.probe("rendezvous-parked")
+                return others[self.ctx.ch.draw(len(others), "thr.park.to")]
+            num, den = self.strategy["p"]
+            if self.ctx.ch.chance(num, den, "thr.switch?"):
+                return others[self.ctx.ch.draw(len(others), "thr.to")]
+            return t
         if kind == "pct":
             if self.steps in self._change_points:
                 self._low -= 1
@@ -187,6 +219,8 @@ class SimThreads:
     def _switch(self, t: _T, nxt: _T, loc: str) -> None:
         self.switch_trace.append(f"{t.name}@{loc}>{nxt.name}")
         self.ctx.switches += 1
+        if nxt is self._parked:
+            self._parked = None  # nobody else could run: the parked thread goes on without its rendezvous
         self.current = nxt
         nxt.started = True
         nxt.sem.release()
@@ -270,6 +304,8 @@ class SimThreads:
         else:
             nxt = cands[self.ctx.ch.draw(len(cands), "thr.next")]
         self.switch_trace.append(f"{t.name}.end>{nxt.name}")
+        if nxt is self._parked:
+            self._parked = None
         self.current = nxt
         nxt.started = True
         nxt.sem.release()
@@ -311,6 +347,9 @@ class SimThreads:
                 self.threads[i].prio = n - rank
             d = self.strategy.get("d", 1)
             self._change_points = {1 + ch.draw(max(1, est_steps), "thr.cp") for _ in range(d)}
+        elif kind == "rdv":
+            for t in self.threads:
+                t.parks_left = ch.draw(6, "thr.parks")
         elif kind == "stagger":
             for t in self.threads:
                 t.start_at = ch.draw(max(1, est_steps), "thr.start_at")
